@@ -22,13 +22,15 @@ RULE = ("part A: class in {LRUCache, HybridCache, SimpleCache, DiskCache(+-LRU f
         "tape-chosen duration incl. 0 and ties, get, in, len, clear, re-put, DiskCache reopen with possibly smaller "
         "max_size and tape-chosen file ctimes incl. ties and backward steps), stepped against an executable policy model. "
         "part B: 2-3 simulated processes with pickled copies of a shared LRU/Hybrid cache or a DiskCache (shared LRU front) on one directory, 2-4 ops each, pre-empted at "
-        "every manager RPC. distinct_nontrivial = distinct (configuration, history, RPC-order digest) in which an "
+        "every manager RPC. part R (about 1 case in 1000): a DiskCache directory filled by one real interpreter and reopened by a second one with "
+        "another PYTHONHASHSEED, keys incl. instances of a class defined in __main__, to_hashable forms and a raw frozenset. Part A also has policy-stress "
+        "histories (8-16 put/get ops, durations 1-8, no clear) and puts of values that cannot be pickled. distinct_nontrivial = distinct (configuration, history, RPC-order digest) in which an "
         "eviction happened (A) or two clients' operations overlapped (B)")
 COMPONENTS = {
     "real": ["pipefunc.cache LRUCache/HybridCache/SimpleCache/DiskCache", "cloudpickle/pickle", "tmpfs directory of a DiskCache"],
     "stub": ["multiprocessing.Manager dict/list/Lock (FakeManager, one yield point per RPC)", "file ctimes (tape-chosen)",
              "client processes (kernel threads holding pickled copies)"],
-    "not_run": ["real manager server process (fidelity sample planned in thorough tier)"],
+    "not_run": ["real manager server process (covered by `check.py fidelity` only)"],
 }
 ASSUMPTIONS = [
     "HybridCache: an eviction whenever len >= max_size at put (also on re-put of a resident key) follows the documented "
